@@ -3,14 +3,29 @@ package main
 import (
 	"bytes"
 	"context"
+	"crypto/sha256"
 	"fmt"
 	"os"
 	"os/exec"
+	"path/filepath"
 	"regexp"
 	"strings"
 	"sync"
 	"time"
 )
+
+// answerCacheDir: where proved scripts are remembered ("" = off); set by the check/verify commands.
+var answerCacheDir = ""
+
+func initAnswerCache() {
+	if os.Getenv("VERIF_NO_CACHE") != "" {
+		return
+	}
+	d := filepath.Join(verifDir, ".cache", "smt")
+	if os.MkdirAll(d, 0755) == nil {
+		answerCacheDir = d
+	}
+}
 
 type solverSpec struct {
 	name string
@@ -134,6 +149,33 @@ type solverAnswer struct {
 func discharge(sc *Script, ob *Obligation, timeoutS int, dir string, all bool) {
 	if ob.Status != "" {
 		return
+	}
+	// answer cache: an `unsat` answer is a property of the SMT script alone, so it is remembered under the SHA-256 of the
+	// complete script (declarations, every fact, guard and goal as generated from the current tree). Only proofs are
+	// remembered; anything else is decided afresh. The evidence counts reused answers separately. VERIF_NO_CACHE=1 disables.
+	var ckey string
+	if answerCacheDir != "" && ob.Kind != "canary" && !all {
+		sum := sha256.Sum256([]byte(sc.render(ob, "", false)))
+		ckey = filepath.Join(answerCacheDir, fmt.Sprintf("%x", sum[:]))
+		if os.Getenv("GOVC_CACHE_DEBUG") != "" {
+			fmt.Fprintf(os.Stderr, "cachekey %s %x\n", ob.ID, sum[:6])
+		}
+		if data, err := os.ReadFile(ckey); err == nil {
+			f := strings.Fields(string(data))
+			if len(f) >= 2 && f[0] == "unsat" {
+				ob.Status, ob.Solver, ob.Cached = "unsat", f[1], true
+				ob.Output = "answer reused: identical SMT script was proved by " + f[1]
+				return
+			}
+		}
+		defer func() {
+			if ob.Status == "unsat" && ob.Solver != "trivial" {
+				tmp := fmt.Sprintf("%s.%d.tmp", ckey, os.Getpid())
+				if os.WriteFile(tmp, []byte(fmt.Sprintf("unsat %s %.3f\n", ob.Solver, ob.TimeS)), 0644) == nil {
+					os.Rename(tmp, ckey)
+				}
+			}
+		}()
 	}
 	splittable := len(sc.caseTerms) > 0 && ob.Case == "" && ob.Kind != "canary" && ob.Kind != "cases"
 	if !splittable || all || timeoutS <= 25 {
